@@ -104,11 +104,19 @@ type Frame struct {
 	headers  map[int]bool
 	rpo      []int
 	sticky   map[string]*Term
+	hjoin    map[string]headerJoin // per sticky memory atom of a loop header: the cell and the values last joined there
 	curBlock int
 	curMem   *Mem
 	rets     []retInfo
 	panics   int
 	in       *Interp
+}
+
+type headerJoin struct {
+	header int
+	obj    *Object
+	path   Path
+	vals   []*Term
 }
 
 type retInfo struct {
@@ -705,6 +713,9 @@ func (fr *Frame) evalPass(m0 *Mem) {
 				if pm == nil {
 					continue
 				}
+				if fr.headers[p.Index] && !fr.inLoop(p.Index, b) {
+					pm = fr.exitMem(p.Index, pm) // leaving a counted loop through its test: arrays it filled are known
+				}
 				pr := fr.reach[p.Index]
 				if pr == nil {
 					pr = True // back edge source not yet visited in this pass
@@ -861,6 +872,9 @@ func (in *Interp) joinMems(fr *Frame, b int, mems []*Mem, gs []*Term, header boo
 		skey := fmt.Sprintf("mem#%s#%d#%s", fr.ID, b, k)
 		if a := fr.sticky[skey]; a != nil {
 			in.noteDeps(skey, vs)
+			if header {
+				fr.noteHeaderJoin(skey, b, c.obj, c.path, vs)
+			}
 			out.put(c.obj, c.path, a)
 			continue
 		}
@@ -873,6 +887,7 @@ func (in *Interp) joinMems(fr *Frame, b int, mems []*Mem, gs []*Term, header boo
 			a := Atom(skey, typeAt(c.obj.T, c.path))
 			fr.sticky[skey] = a
 			in.noteDeps(skey, vs)
+			fr.noteHeaderJoin(skey, b, c.obj, c.path, vs)
 			out.put(c.obj, c.path, a)
 			continue
 		}
